@@ -678,8 +678,8 @@ class Interp:
                 return self.call(self.getattr(c, '__contains__'), [x], {})
             if c.cls.has('__iter__'):
                 return self.contains(self.iterate(c), x)
-        from .seq import ASet
-        if isinstance(c, ASet):
+        from .seq import ASet, ADict
+        if isinstance(c, (ASet, ADict)):
             return c.contains(x)
         raise OutOfSubset(f'"in" on {type(c).__name__}')
 
@@ -758,47 +758,60 @@ class Interp:
                     rec(i + 1, cenv)
         rec(0, Env(parent=env))
 
-    def _abstract_comp(self, e, env, mod, kind):
+    def _abstract_first(self, e, env, mod):
+        """The first iterable of a comprehension, evaluated once; (value, is_abstract)."""
+        from . import seq
+        src = force(self.ev(e.generators[0].iter, env, mod))
+        if isinstance(src, Inst) and src.cls.has('__iter__'):
+            it = force(self.call(self.getattr(src, '__iter__'), [], {}))
+            if isinstance(it, (AList, seq.ASet, seq.ADict)):
+                src = it
+        return src, isinstance(src, (AList, seq.ASet, seq.ADict))
+
+    def _abstract_comp(self, e, src, env, mod, kind):
         """Comprehension whose first generator ranges over an abstract sequence."""
         if len(e.generators) != 1:
             raise OutOfSubset('nested comprehension over abstract sequence')
         from . import seq
-        g = e.generators[0]
-        src = force(self.ev(g.iter, env, mod))
-        if not isinstance(src, (AList, seq.ASet)):
-            return None
-        return seq.comprehension(self, src, g, e, env, mod, kind)
+        return seq.comprehension(self, src, e.generators[0], e, env, mod, kind)
 
-    def _first_is_abstract(self, e, env, mod):
-        from . import seq
-        g = e.generators[0]
-        try:
-            src = force(self.ev(g.iter, env, mod))
-        except PyRaise:
-            raise
-        return isinstance(src, (AList, seq.ASet))
+    def _comp_with_first(self, generators, first, env, mod, emit):
+        def rec(i, cenv):
+            if i == len(generators):
+                emit(cenv)
+                return
+            g = generators[i]
+            it = first if i == 0 else self.ev(g.iter, cenv, mod)
+            for x in self.iterate(it):
+                self.assign(g.target, x, cenv, mod)
+                if all(truth(self.ev(c, cenv, mod)) for c in g.ifs):
+                    rec(i + 1, cenv)
+        rec(0, Env(parent=env))
 
     def ex_ListComp(self, e, env, mod):
-        if self._first_is_abstract(e, env, mod):
-            return self._abstract_comp(e, env, mod, 'list')
+        src, abstract = self._abstract_first(e, env, mod)
+        if abstract:
+            return self._abstract_comp(e, src, env, mod, 'list')
         out = []
-        self._comp(e.generators, env, mod, lambda cenv: out.append(self.ev(e.elt, cenv, mod)))
+        self._comp_with_first(e.generators, src, env, mod, lambda cenv: out.append(self.ev(e.elt, cenv, mod)))
         return out
 
     ex_GeneratorExp = ex_ListComp
 
     def ex_SetComp(self, e, env, mod):
-        if self._first_is_abstract(e, env, mod):
-            return self._abstract_comp(e, env, mod, 'set')
+        src, abstract = self._abstract_first(e, env, mod)
+        if abstract:
+            return self._abstract_comp(e, src, env, mod, 'set')
         out = ISet()
-        self._comp(e.generators, env, mod, lambda cenv: out.add(self.ev(e.elt, cenv, mod)))
+        self._comp_with_first(e.generators, src, env, mod, lambda cenv: out.add(self.ev(e.elt, cenv, mod)))
         return out
 
     def ex_DictComp(self, e, env, mod):
-        if self._first_is_abstract(e, env, mod):
-            return self._abstract_comp(e, env, mod, 'dict')
+        src, abstract = self._abstract_first(e, env, mod)
+        if abstract:
+            return self._abstract_comp(e, src, env, mod, 'dict')
         out = IDict()
-        self._comp(e.generators, env, mod, lambda cenv: out.set(self.ev(e.key, cenv, mod), self.ev(e.value, cenv, mod)))
+        self._comp_with_first(e.generators, src, env, mod, lambda cenv: out.set(self.ev(e.key, cenv, mod), self.ev(e.value, cenv, mod)))
         return out
 
     # calls ---------------------------------------------------------------------------------
@@ -989,6 +1002,8 @@ class Interp:
 
     # attributes ------------------------------------------------------------------------------
     def getattr(self, obj, name):
+        if isinstance(obj, SChoice) and all(isinstance(x, Inst) and name in x.attrs for _, x in obj.alts):
+            return ops.merge([(c, x.attrs[name]) for c, x in obj.alts])      # plain data attribute of every alternative: no fork
         obj = force(obj)
         if isinstance(obj, SuperProxy):
             inst = force(obj.obj)
@@ -1111,6 +1126,9 @@ class Interp:
                 return self.call(self.getattr(obj, '__getitem__'), [idx], {})
             raise_py('TypeError', 'not subscriptable')
         if isinstance(obj, AList):
+            return obj.getitem(idx)
+        from .seq import ADict
+        if isinstance(obj, ADict):
             return obj.getitem(idx)
         from .arrays import AArr
         if isinstance(obj, AArr):
